@@ -89,6 +89,12 @@ def build(force=False, log=None):
         rc, o, e = sh(['go', 'build', '-tags', 'verif', '-o', os.path.join(BUILD, 'borno'), '.'], cwd=REPO, env=renv)
         if rc != 0:
             raise BuildError(f'go build of /repo failed:\n{e}')
+        # coverage-instrumented twins (used when an obligation is broken and in the thorough tier; see vlib/cover.py)
+        for f in ('impl_cover', 'borno_cover'):
+            try: os.remove(os.path.join(BUILD, f))
+            except OSError: pass
+        sh(['go', 'build', '-tags', 'verif', '-cover', '-coverpkg=./...,github.com/ah-naf/borno/...', '-o', os.path.join(BUILD, 'impl_cover'), './cmd/impl'], cwd=hdir, env=henv)
+        sh(['go', 'build', '-tags', 'verif', '-cover', '-o', os.path.join(BUILD, 'borno_cover'), '.'], cwd=REPO, env=renv)
         # 2. regenerate the facts (old ones deleted first)
         shutil.rmtree(GEN, ignore_errors=True)
         rc, o, e = sh([os.path.join(BUILD, 'factgen'), REPO, GEN], env=renv)
